@@ -1983,4 +1983,227 @@ theorem invert_pi1_eq (d1 d0 : Nat) (hnorm : B / 2 ≤ d1) (hd1 : d1 < B) (hd0 :
   rw [Nat.div_eq_of_lt_le lo hi]; omega
 
 
+/-! ### mpn_divexact_by3c -/
+
+theorem by3_core (dx ax δ r x : Nat) (hδ : δ ≤ 3) (hx : x = 3 * dx + δ)
+    (hax : ax + dx = δ * 6148914691236517205) (hxB : x < 18446744073709551616) (hr : r ≤ 2) :
+    ∃ r', r' ≤ 2 ∧
+      (((6148914691236517205 * r + 18446744073709551616 - ax) % 18446744073709551616 + 18446744073709551616 -
+        (dx + (if (6148914691236517205 * r + 18446744073709551616 - ax) % 18446744073709551616 > 6148914691236517205 * r then 1 else 0)) % 18446744073709551616) % 18446744073709551616)
+        = 6148914691236517205 * r' ∧
+      x + r' * 18446744073709551616 = 3 * ((6148914691236517205 * r + 18446744073709551616 - ax) % 18446744073709551616) + r := by
+  have hδ4 : δ = 0 ∨ δ = 1 ∨ δ = 2 ∨ δ = 3 := by omega
+  have hr3 : r = 0 ∨ r = 1 ∨ r = 2 := by omega
+  rcases hδ4 with rfl | rfl | rfl | rfl <;> rcases hr3 with rfl | rfl | rfl
+  · exact ⟨0, by omega, by split <;> omega, by omega⟩
+  · exact ⟨1, by omega, by split <;> omega, by omega⟩
+  · exact ⟨2, by omega, by split <;> omega, by omega⟩
+  · exact ⟨2, by omega, by split <;> omega, by omega⟩
+  · exact ⟨0, by omega, by split <;> omega, by omega⟩
+  · exact ⟨1, by omega, by split <;> omega, by omega⟩
+  · exact ⟨1, by omega, by split <;> omega, by omega⟩
+  · exact ⟨2, by omega, by split <;> omega, by omega⟩
+  · exact ⟨0, by omega, by split <;> omega, by omega⟩
+  · exact ⟨0, by omega, by split <;> omega, by omega⟩
+  · exact ⟨1, by omega, by split <;> omega, by omega⟩
+  · exact ⟨2, by omega, by split <;> omega, by omega⟩
+
+/-- one limb of the division by 3: with accumulator m·r (r = borrow 0..2) the limb produced is the
+    exact-division limb and the new accumulator is m·r' -/
+theorem by3_step (x r : Nat) (hx : x < B) (hr : r ≤ 2) :
+    ∃ r', r' ≤ 2 ∧
+      ((((B - 1) / 3 * r + B - (x * ((B - 1) / 3)) % B) % B + B -
+        ((x * ((B - 1) / 3)) / B + (if ((B - 1) / 3 * r + B - (x * ((B - 1) / 3)) % B) % B > (B - 1) / 3 * r then 1 else 0)) % B) % B)
+        = (B - 1) / 3 * r' ∧
+      x + r' * B = 3 * (((B - 1) / 3 * r + B - (x * ((B - 1) / 3)) % B) % B) + r ∧
+      ((B - 1) / 3 * r + B - (x * ((B - 1) / 3)) % B) % B < B := by
+  have hm : (B - 1) / 3 = 6148914691236517205 := by rw [B_eq]
+  rw [hm]
+  simp only [B_eq] at *
+  have hdm := Nat.div_add_mod (x * 6148914691236517205) 18446744073709551616
+  have hml := Nat.mod_lt (x * 6148914691236517205) (by norm_num : 0 < 18446744073709551616)
+  generalize (x * 6148914691236517205) / 18446744073709551616 = dx at *
+  generalize (x * 6148914691236517205) % 18446744073709551616 = ax at *
+  have hdxlt : dx + (if (6148914691236517205 * r + 18446744073709551616 - ax) % 18446744073709551616 >
+      6148914691236517205 * r then 1 else 0) < 18446744073709551616 := by split <;> omega
+  obtain ⟨r', h1, h2, h3⟩ := by3_core dx ax (x - 3 * dx) r x (by omega) (by omega) (by omega) hx hr
+  exact ⟨r', h1, h2, h3, by omega⟩
+
+theorem divexactBy3Go_cons (m x : Nat) (xs : List Nat) (acc : Nat) :
+    divexactBy3Go m (x :: xs) acc =
+      (((acc + B - (x * m) % B) % B) ::
+        (divexactBy3Go m xs
+          (((acc + B - (x * m) % B) % B + B -
+            ((x * m) / B + (if (acc + B - (x * m) % B) % B > acc then 1 else 0)) % B) % B)).1,
+       (divexactBy3Go m xs
+          (((acc + B - (x * m) % B) % B + B -
+            ((x * m) / B + (if (acc + B - (x * m) % B) % B > acc then 1 else 0)) % B) % B)).2) := rfl
+
+theorem divexactBy3Go_spec (xs : List Nat) : ∀ r, r ≤ 2 → Limbs xs →
+    ∃ r', r' ≤ 2 ∧ (divexactBy3Go ((B - 1) / 3) xs ((B - 1) / 3 * r)).2 = (B - 1) / 3 * r' ∧
+      val xs + r' * B ^ xs.length = 3 * val (divexactBy3Go ((B - 1) / 3) xs ((B - 1) / 3 * r)).1 + r ∧
+      Limbs (divexactBy3Go ((B - 1) / 3) xs ((B - 1) / 3 * r)).1 ∧
+      (divexactBy3Go ((B - 1) / 3) xs ((B - 1) / 3 * r)).1.length = xs.length := by
+  induction xs with
+  | nil => intro r hr _; exact ⟨r, hr, rfl, by simp [divexactBy3Go], Limbs_nil, rfl⟩
+  | cons x xs ih =>
+    intro r hr hl
+    have ⟨hx, hxs⟩ := Limbs_cons.mp hl
+    obtain ⟨r1, hr1, hacc, hval, hq⟩ := by3_step x r hx hr
+    rw [divexactBy3Go_cons, hacc]
+    obtain ⟨r', hr', e1, e2, e3, e4⟩ := ih r1 hr1 hxs
+    refine ⟨r', hr', e1, ?_, Limbs_cons.mpr ⟨hq, e3⟩, by rw [List.length_cons, e4, List.length_cons]⟩
+    rw [val_cons, val_cons, List.length_cons, pow_succ]
+    generalize val (divexactBy3Go ((B - 1) / 3) xs ((B - 1) / 3 * r1)).1 = Vo at *
+    generalize ((B - 1) / 3 * r + B - (x * ((B - 1) / 3)) % B) % B = q at *
+    generalize val xs = Vx at *
+    generalize B ^ xs.length = P at *
+    have : x + B * Vx + r' * (P * B) = x + B * (Vx + r' * P) := by ring
+    rw [this, e2]
+    have : x + B * (3 * Vo + r1) = (x + r1 * B) + B * (3 * Vo) := by ring
+    rw [this, hval]; ring
+
+/-- mpn_divexact_by3c: x + ret·B^n = 3·q + c with ret ∈ {0,1,2}, for every length and carry-in c ∈ {0,1,2} -/
+theorem divexact_by3c_spec (x : List Nat) (c : Nat) (hx : Limbs x) (hc : c ≤ 2) :
+    val x + (divexact_by3c x c).2 * B ^ x.length = 3 * val (divexact_by3c x c).1 + c ∧
+    (divexact_by3c x c).2 ≤ 2 ∧ Limbs (divexact_by3c x c).1 ∧ (divexact_by3c x c).1.length = x.length := by
+  have hm : (B - 1) / 3 = 6148914691236517205 := by rw [B_eq]
+  have hc0 : (c * ((B - 1) / 3)) % B = (B - 1) / 3 * c := by
+    rw [hm]; simp only [B_eq]; omega
+  obtain ⟨r', hr', e1, e2, e3, e4⟩ := divexactBy3Go_spec x c hc hx
+  have hunf : divexact_by3c x c = ((divexactBy3Go ((B - 1) / 3) x ((c * ((B - 1) / 3)) % B)).1,
+      ((divexactBy3Go ((B - 1) / 3) x ((c * ((B - 1) / 3)) % B)).2 * (B - 3)) % B) := rfl
+  rw [hunf, hc0, e1]
+  have hret : ((B - 1) / 3 * r' * (B - 3)) % B = r' := by
+    rw [hm]; simp only [B_eq]
+    have : r' = 0 ∨ r' = 1 ∨ r' = 2 := by omega
+    rcases this with rfl | rfl | rfl <;> norm_num
+  simp only
+  rw [hret]
+  exact ⟨e2, hr', e3, e4⟩
+
+
+/-! ### mpn_modexact_1c_odd (assembly dataflow) -/
+
+theorem modexactGo_nil (d inv x cb h : Nat) :
+    modexactGo d inv [] x cb h = ((modexactStep d inv x cb h).1 + (modexactStep d inv x cb h).2) % B := rfl
+
+theorem modexactGo_cons (d inv s : Nat) (ss : List Nat) (x cb h : Nat) :
+    modexactGo d inv (s :: ss) x cb h =
+      modexactGo d inv ss ((s + B - (modexactStep d inv x cb h).1) % B)
+        (if s < (modexactStep d inv x cb h).1 then 1 else 0) (modexactStep d inv x cb h).2 := by
+  unfold modexactGo
+  rw [List.foldl_cons]
+  rfl
+
+theorem modexactStep_fst (d inv x cb h : Nat) :
+    (modexactStep d inv x cb h).1 = cb + (if x < h then 1 else 0) := rfl
+theorem modexactStep_snd (d inv x cb h : Nat) :
+    (modexactStep d inv x cb h).2 = (((x + B - h) % B * inv) % B * d) / B := rfl
+
+/-- one limb: y = x − h (mod B) with borrow, q = y·inv, new high part -/
+theorem modexact_step (x cb h d inv : Nat) (hx : x < B) (hh : h < B) (hcb : cb = 0 ∨ (cb = 1 ∧ x = B - 1))
+    (hd0 : 0 < d) (_hdB : d < B) (hinv : (d * inv) % B = 1) :
+    ∃ q, q < B ∧ (modexactStep d inv x cb h).1 ≤ 1 ∧ (modexactStep d inv x cb h).2 < d ∧
+      x + (modexactStep d inv x cb h).1 * B + (modexactStep d inv x cb h).2 * B = q * d + h + cb * B := by
+  rw [modexactStep_fst, modexactStep_snd]
+  have hyB : (x + B - h) % B < B := Nat.mod_lt _ B_pos
+  have hy : x + (if x < h then 1 else 0) * B = (x + B - h) % B + h := by
+    simp only [B_eq] at *; split <;> omega
+  have hcb' : cb + (if x < h then 1 else 0) ≤ 1 := by
+    rcases hcb with rfl | ⟨rfl, rfl⟩
+    · split <;> omega
+    · have : ¬ (B - 1 < h) := by omega
+      rw [if_neg this]
+  generalize (x + B - h) % B = y at *
+  have hq := hensel_limb y d inv hyB hinv
+  have hqB : (y * inv) % B < B := Nat.mod_lt _ B_pos
+  have hh' := (hi_lt ((y * inv) % B) d hqB).resolve_right (by omega)
+  refine ⟨(y * inv) % B, hqB, hcb', hh', ?_⟩
+  generalize (y * inv) % B = q at *
+  generalize q * d / B = h' at *
+  generalize (if x < h then 1 else 0) = b at *
+  rw [hq]
+  have : x + (cb + b) * B + h' * B = (x + b * B) + cb * B + h' * B := by ring
+  rw [this, hy]; ring
+
+/-- invariant of the assembly loop: x + B·rest + ret·B^(len+1) = Q·d + h + B·cb -/
+theorem modexactGo_spec (d inv : Nat) (hd0 : 0 < d) (hdB : d < B) (hinv : (d * inv) % B = 1) (rest : List Nat) :
+    ∀ x cb h, x < B → h < B → (cb = 0 ∨ (cb = 1 ∧ x = B - 1)) → Limbs rest →
+    ∃ Q, x + B * val rest + modexactGo d inv rest x cb h * B ^ (rest.length + 1) = Q * d + h + cb * B ∧
+      Q < B ^ (rest.length + 1) ∧ modexactGo d inv rest x cb h ≤ d := by
+  induction rest with
+  | nil =>
+    intro x cb h hx hh hcb _
+    obtain ⟨q, a1, a2, a3, a4⟩ := modexact_step x cb h d inv hx hh hcb hd0 hdB hinv
+    rw [modexactGo_nil]
+    have hlt : (modexactStep d inv x cb h).1 + (modexactStep d inv x cb h).2 < B := by omega
+    rw [Nat.mod_eq_of_lt hlt]
+    refine ⟨q, ?_, by rw [List.length_nil, Nat.zero_add, pow_one]; exact a1, by omega⟩
+    rw [val_nil, Nat.mul_zero, Nat.add_zero, List.length_nil, Nat.zero_add, pow_one, ← a4]; ring
+  | cons s ss ih =>
+    intro x cb h hx hh hcb hl
+    have ⟨hs, hss⟩ := Limbs_cons.mp hl
+    obtain ⟨q, a1, a2, a3, a4⟩ := modexact_step x cb h d inv hx hh hcb hd0 hdB hinv
+    rw [modexactGo_cons]
+    generalize (modexactStep d inv x cb h).1 = cb' at *
+    generalize (modexactStep d inv x cb h).2 = h' at *
+    have hx' : (s + B - cb') % B < B := Nat.mod_lt _ B_pos
+    have hxs : s + (if s < cb' then 1 else 0) * B = (s + B - cb') % B + cb' := by
+      simp only [B_eq] at *; split <;> omega
+    have hcb'' : (if s < cb' then 1 else 0) = 0 ∨ ((if s < cb' then 1 else 0) = 1 ∧ (s + B - cb') % B = B - 1) := by
+      simp only [B_eq] at *; split <;> omega
+    obtain ⟨Q', e, hQ', hle⟩ := ih ((s + B - cb') % B) (if s < cb' then 1 else 0) h' hx' (by omega) hcb'' hss
+    refine ⟨q + B * Q', ?_, ?_, hle⟩
+    · rw [val_cons, List.length_cons, pow_succ]
+      generalize modexactGo d inv ss ((s + B - cb') % B) (if s < cb' then 1 else 0) h' = ret at *
+      generalize (s + B - cb') % B = x' at *
+      generalize (if s < cb' then 1 else 0) = cb2 at *
+      generalize val ss = Vs at *
+      generalize B ^ (ss.length + 1) = P at *
+      have g1 : ret * (P * B) = (ret * P) * B := by ring
+      have g2 : (q + B * Q') * d = q * d + B * (Q' * d) := by ring
+      rw [g1, g2]
+      generalize ret * P = RP at *
+      generalize Q' * d = Qd at *
+      generalize q * d = qd at *
+      clear g1 g2 hQ' hle ih hinv
+      simp only [B_eq] at *
+      omega
+    · rw [List.length_cons, pow_succ]
+      have : B * Q' + B ≤ B ^ (ss.length + 1) * B := by
+        have h1 : (Q' + 1) * B ≤ B ^ (ss.length + 1) * B := Nat.mul_le_mul_right _ hQ'
+        have h2 : (Q' + 1) * B = B * Q' + B := by ring
+        omega
+      omega
+
+/-- mpn_modexact_1c_odd as documented in mpn/generic/modexact_1c_odd.c: r·B^n + a − c = q·d with k = n,
+    0 ≤ r ≤ d, and r < d when c < d. -/
+theorem modexact_1c_odd_spec (src : List Nat) (d c : Nat) (hsrc : Limbs src) (hne : src ≠ []) (hodd : d % 2 = 1)
+    (hdB : d < B) (hc : c < B) :
+    ∃ q, val src + modexact_1c_odd src d c * B ^ src.length = q * d + c ∧
+      modexact_1c_odd src d c ≤ d ∧ (c < d → modexact_1c_odd src d c < d) := by
+  cases src with
+  | nil => exact absurd rfl hne
+  | cons s ss =>
+    have ⟨hs, hss⟩ := Limbs_cons.mp hsrc
+    have hd0 : 0 < d := by omega
+    have hinv := modlimb_invert_mul d hodd
+    obtain ⟨Q, e, hQ, hle⟩ := modexactGo_spec d (modlimb_invert d) hd0 hdB hinv ss s 0 c hs hc (Or.inl rfl) hss
+    have hunf : modexact_1c_odd (s :: ss) d c = modexactGo d (modlimb_invert d) ss s 0 c := rfl
+    rw [hunf, List.length_cons]
+    generalize modexactGo d (modlimb_invert d) ss s 0 c = ret at *
+    rw [Nat.zero_mul, Nat.add_zero] at e
+    refine ⟨Q, by rw [val_cons]; exact e, hle, ?_⟩
+    intro hcd
+    have hP : 0 < B ^ (ss.length + 1) := by have := B_pos; positivity
+    have h1 : Q * d + c < B ^ (ss.length + 1) * d := by
+      have : (Q + 1) * d ≤ B ^ (ss.length + 1) * d := Nat.mul_le_mul_right _ hQ
+      have : (Q + 1) * d = Q * d + d := by ring
+      omega
+    have h2 : ret * B ^ (ss.length + 1) < d * B ^ (ss.length + 1) := by
+      rw [Nat.mul_comm d]; omega
+    exact Nat.lt_of_mul_lt_mul_right h2
+
+
 end Mpir.DivWord
